@@ -24,6 +24,7 @@ import GraphiqModel.Proofs.SolverSoundMain
 import GraphiqModel.Proofs.SolverCompleteMain
 import GraphiqModel.Proofs.SolverCompleteFlag
 import GraphiqModel.Proofs.SolverCompleteFinal
+import GraphiqModel.Proofs.SolverCompleteValidator
 namespace Graphiq.C02
 open Graphiq Graphiq.PRow Graphiq.Tab Graphiq.STab
 
@@ -65,8 +66,9 @@ theorem photons_in_graph_state (ne np : Nat) (ops : List COp) (adj : Nat → Nat
   rw [← hr]
   exact spn_gen (targetSTab np ne adj) v (by show v < np + ne; omega)
 
-/-- full statement kept visible (NOT proved: it needs completeness, Li–Economou–Barnes):
-    for every simple graph the solver returns a circuit accepted by the validator -/
+/-- statement kept visible (used by C10): for every simple graph the solver returns a circuit accepted by the validator.  As it stands it
+    is FALSE for the code and the model (graphs with an isolated vertex raise, D3 / `isolated_vertex_raises`; the empty graph raises);
+    with the hypotheses "at least one vertex, no isolated vertex" it is proved for the solver model: `validator_accepts_solver` -/
 def solver_correct_statement (solve : (np : Nat) → (Nat → Nat → Bool) → Option (Nat × List COp)) : Prop :=
   ∀ (np : Nat) (adj : Nat → Nat → Bool), (∀ i j, adj i j = adj j i) → (∀ i, adj i i = false) →
     ∃ ne ops, solve np adj = some (ne, ops) ∧ checkGenerates ne np ops adj = true
@@ -439,6 +441,15 @@ theorem model_solver_generates (hzero : InverseCircuitEndsInZero) (np : Nat) (ad
     obtain ⟨rfl, rfl⟩ := h
     obtain ⟨rs, h1, _, h3, h4⟩ := solve_returns_correct hzero np adj hsym s hs script
     exact ⟨rs, h1, h3, fun p hp => (h4 p).1 hp, fun p hp => (h4 p).2 hp⟩
+
+/-- **the verified validator accepts the circuit of the model solver** on every graph on ≥ 1 vertex without isolated vertex (the corrected
+    form of `solver_correct_statement`): the solver returns and `checkGenerates` — every outcome script run, final group compared with the
+    target through canonical forms — evaluates to `true` (completeness of `sameGroup` on valid tableaux, via C05's `canon_unique`) -/
+theorem validator_accepts_solver (hinv : InverseCircuitComplete) (np : Nat) (adj : Nat → Nat → Bool) (hnp : 0 < np)
+    (hsym : ∀ i j, adj i j = adj j i) (hirr : ∀ i, adj i i = false) (hiso : ∀ i, i < np → ∃ j, j < np ∧ adj i j = true) :
+    ∃ ne ops, modelSolver np adj = some (ne, ops) ∧ checkGenerates ne np ops adj = true := by
+  obtain ⟨s, hs, hc⟩ := Solver.checkGenerates_solver hinv np adj hnp hsym hirr hiso
+  exact ⟨s.ne, s.cops, by unfold modelSolver; rw [hs], hc⟩
 
 /-- and the model solver returns on every graph on ≥ 1 vertex without isolated vertex -/
 theorem model_solver_returns (hinv : InverseCircuitComplete) (np : Nat) (adj : Nat → Nat → Bool) (hnp : 0 < np)
